@@ -206,6 +206,10 @@ func printReplay(h *History, oc outcome) {
 	for i, s := range h.Sessions {
 		fmt.Printf("  session %d: realm=%s q=%d wrap=%v raw=%v\n", i, s.Realm, s.Q, s.Wrap, s.Raw)
 	}
+	if y := h.YieldResume; y != nil {
+		fmt.Printf("  scripted scenario: callee registers, caller (q=%d) calls, stops reading, its queue is filled; YIELD kind %q; the caller resumes %d us of virtual time after the YIELD was taken\n", y.Q, y.Kind, y.ResumeUs)
+		fmt.Printf("  model (coq/Conc/YieldRetry.v, prediction): retries at 1, 3, 7, ... ms after the YIELD; RESULT at the first retry instant >= resume instant, else cancel at 65 535 ms\n")
+	}
 	for i, o := range h.Ops {
 		mark := ""
 		if h.Close != nil && h.Close.Pos == i {
